@@ -184,7 +184,19 @@ def time_cond_at(cond, t, opts):
             return t >= cond['thr'] and (t - cond['thr']) % int(cond['repeat']) == 0
         return _rel(int(t), cond['rel'], int(cond['thr']))
     if k == 'clock':
-        return _rel(clock_of(t, opts), cond['rel'], int(cond['thr']))
+        start = int(opts.get('start_clocktime', 0))
+        fd = int(cond.get('first_day', 0))
+        thr = int(cond['thr'])
+        if cond.get('once'):
+            # a single trigger on clock day first_day: after/before are not reset at midnight
+            if thr < start and fd < 1:
+                fd = 1
+            if (int(t) + start) // 86400 < fd:
+                return False
+            return _rel(int(t) + start - fd * 86400, cond['rel'], thr)
+        if (int(t) + start) // 86400 < fd:
+            return False
+        return _rel(clock_of(t, opts), cond['rel'], thr)
     raise ValueError('not a time condition: %r' % (cond,))
 
 
